@@ -239,10 +239,13 @@ func verif_contract_Session_findOrCreateHostWithLock(h *Session, addr Addr) (*Ho
 	}
 	// host and MAC tables only (objects, the two index structures, their element slices)
 	vModifiesMems("packet.Host", "packet.MACEntry", "packet.MACTable", "packet.Session/", "packet.NameEntry")
+	conn0, nic0, nonnil0 := h.Conn, h.NICInfo, spec_mactable_nonnil(h)
 	a0 := vAllocs() // read last: the harness's own literals count as allocations too
 	host, found := h.findOrCreateHostWithLock(addr)
 	vEnsures(host != nil && host.MACEntry != nil)
 	vEnsures(spec_session_wf(h))
+	// of the Session's own fields only the two tables change; no nil entry enters the MAC table
+	vEnsures(h.Conn == conn0 && h.NICInfo == nic0 && (!nonnil0 || spec_mactable_nonnil(h)))
 	if tracked {
 		vEnsures(found && host == h0)
 		vEnsures(host.Online == online0)
@@ -253,7 +256,8 @@ func verif_contract_Session_findOrCreateHostWithLock(h *Session, addr Addr) (*Ho
 
 func verif_contract_Session_onlineTransition(h *Session, host *Host) {
 	vRequires(spec_session_wf(h) && host != nil && host.MACEntry != nil)
-	vModifiesMems("packet.Host", "packet.MACEntry", "packet.MACTable", "packet.Session/", "packet.NameEntry")
+	// flags and addresses of the host, its MAC entry and the entry's other hosts: no table, no Session field
+	vModifiesMems("packet.Host/", "packet.MACEntry/")
 	h.onlineTransition(host)
 	vEnsures(spec_session_wf(h))
 }
